@@ -42,8 +42,8 @@ PROP_TIES = {
     'C01': ['Portfolio.subscribe', 'Portfolio.withdraw', 'Portfolio.transactAsset'],
     'C04': ['Broker.makeTxn#fill'],
     'C05': ['Broker.makeTxn', 'PercentFee.totalCost', 'ZeroFee.totalCost'],
-    'C10': ['DW.normalise', 'DW.quantity', 'PercentFee.totalCost', 'ZeroFee.totalCost'],
-    'C11': ['LS.normalise', 'LS.quantity', 'PercentFee.totalCost', 'ZeroFee.totalCost'],
+    'C10': ['DW.checkBuffer', 'DW.normalise', 'DW.quantity', 'PercentFee.totalCost', 'ZeroFee.totalCost'],
+    'C11': ['LS.checkLeverage', 'LS.normalise', 'LS.quantity', 'PercentFee.totalCost', 'ZeroFee.totalCost'],
     'C08': ['Broker.makeTxn', 'PercentFee.totalCost', 'ZeroFee.totalCost', 'DW.normalise', 'DW.quantity', 'LS.normalise', 'LS.quantity',
             'Position.net', 'Position.marketValue'] + _keys('Position', 'transact', _POS_FIELDS_QTY) + _keys('Position', 'openFrom', _POS_FIELDS_QTY),
 }
